@@ -317,14 +317,17 @@ def clause_no_refusal_after_write(prog, rep, pw, rule="preview-gates-writes", pr
             if id(x) in seen:
                 continue
             seen.add(id(x))
-            if x.name in ("map_err", "ok_or", "ok_or_else", "and_then", "map") and x.krate in ("core", "std", "alloc") and x.args and "p" in x.args[0]:
+            if x.name in ("map_err", "ok_or", "ok_or_else", "and_then", "map", "from_residual", "branch") and x.krate in ("core", "std", "alloc") and x.args and "p" in x.args[0]:
                 if x.name in ("ok_or", "ok_or_else"):
                     src.append(x)
                     continue
                 todo += A.producers(prog, pw, x.args[0]["p"][0], scope=set(), max_frames=0)["calls"]
             else:
                 src.append(x)
-        if src and all(wr.call(x) or (x.trait or "").startswith("mdk_storage_traits::") for x in src):
+        st_any = A.ReachCache(prog, lambda y: (y.trait or "").startswith("mdk_storage_traits::"))
+        if src and all(wr.call(x) or (x.trait or "").startswith("mdk_storage_traits::") or
+                       (st_any.call(x) and all(t.crate == "mdk_core" for t in prog.call_targets(x)) and not any(_parses_welcome(prog, t) for t in prog.call_targets(x)))
+                       for x in src):
             continue
         late.append((c, sorted(set(x.name for x in src)) or ["a value computed from the input"]))
     for c, names in late[:3]:
